@@ -78,6 +78,11 @@ func headerCycle(c *ev.Collector, t ev.Fataler, kind string, v util.Message, wir
 		c.Report(t, "C09|"+kind+"|decode-error", err.Error()+" :: "+desc+" :: "+hx(wire), rep)
 		return false
 	}
+	if q, ok := v.(*protocol.IGMPv3Query); ok && q.GroupAddress == nil {
+		// a general query built without a group denotes group 0.0.0.0, which is what a decoder returns
+		q.GroupAddress = net.IP{0, 0, 0, 0}
+		defer func() { q.GroupAddress = nil }()
+	}
 	want, got := obsDumpMsg(v), obsDumpMsg(d)
 	if want != got {
 		c.Report(t, "C09|"+kind+"|value-mismatch|"+diffField(want, got), fmt.Sprintf("%s: %s :: %s", desc, obs.FirstDiff(want, got), hx(wire)), rep)
